@@ -1,5 +1,6 @@
 import TrustVerif.Lemmas.StExec
 import TrustVerif.Lemmas.StWitness
+import TrustVerif.Lemmas.StArray
 
 /-!
 # C02 — the interpreter agrees with an independent IEC reference semantics for the ST core
@@ -151,5 +152,68 @@ theorem c02_repairs_remove_the_counterexamples :
       = some (.fault .Overflow .narrow) ∧
     (cycle { forExact := true } Wit.forUlintCast 100 (Wit.init Wit.forUlintCast)).2 = none := by
   decide +kernel
+
+/-! ## Multi-dimensional subscripts (`array_offset`, Model/StArray.lean) -/
+
+open TrustVerif.StArray in
+/-- **`array_offset` is row-major addressing.**  It succeeds exactly when there is one subscript
+per dimension and every subscript lies within ITS OWN dimension, and then returns the row-major
+position. -/
+theorem c02_array_offset_ok_iff (dims : List (Int × Int)) (idx : List Int) (off : Nat) :
+    arrayOffset dims idx = .ok off ↔
+      dims.length = idx.length ∧ InBounds (dims.zip idx) ∧ (off : Int) = rowMajor (dims.zip idx) := by
+  unfold arrayOffset
+  by_cases hl : dims.length = idx.length
+  · simp only [hl, ne_eq, not_true_eq_false, if_false, true_and]
+    by_cases hb : InBounds (dims.zip idx)
+    · rw [loop_reverse_ok _ hb]
+      obtain ⟨h0, _, _⟩ := rowMajor_bounds _ hb
+      have hn : ¬ rowMajor (dims.zip idx) < 0 := by omega
+      simp only [hn, if_false, hb, true_and]
+      constructor
+      · intro h
+        injection h with h
+        omega
+      · intro h
+        congr 1
+        omega
+    · obtain ⟨d, _, _, he⟩ := loop_reverse_err _ hb
+      rw [he]
+      simp [hb]
+  · simp [hl]
+
+open TrustVerif.StArray in
+/-- A subscript outside its own dimension: `IndexOutOfBounds` naming such a subscript and the
+bounds of its dimension; a wrong number of subscripts: `TypeMismatch`. -/
+theorem c02_array_offset_faults (dims : List (Int × Int)) (idx : List Int) :
+    (dims.length ≠ idx.length → arrayOffset dims idx = .error .typeMismatch) ∧
+    (dims.length = idx.length → ¬ InBounds (dims.zip idx) →
+      ∃ d ∈ dims.zip idx, (d.2 < d.1.1 ∨ d.2 > d.1.2) ∧
+        arrayOffset dims idx = .error (.outOfBounds d.2 d.1.1 d.1.2)) := by
+  constructor
+  · intro h; simp [arrayOffset, h]
+  · intro hl hb
+    obtain ⟨d, hd, hr, he⟩ := loop_reverse_err _ hb
+    exact ⟨d, hd, hr, by simp [arrayOffset, hl, he]⟩
+
+open TrustVerif.StArray in
+/-- The offset addresses an existing element, and different subscript tuples address different
+elements: no two elements of an array share storage, whatever the bounds. -/
+theorem c02_array_offset_injective (dims : List (Int × Int)) (i1 i2 : List Int) (off : Nat)
+    (h1 : arrayOffset dims i1 = .ok off) (h2 : arrayOffset dims i2 = .ok off) :
+    i1 = i2 ∧ (off : Int) < size (dims.zip i1) := by
+  obtain ⟨l1, b1, e1⟩ := (c02_array_offset_ok_iff dims i1 off).mp h1
+  obtain ⟨l2, b2, e2⟩ := (c02_array_offset_ok_iff dims i2 off).mp h2
+  refine ⟨rowMajor_inj dims i1 i2 l1.symm l2.symm b1 b2 (by omega), ?_⟩
+  obtain ⟨_, h, _⟩ := rowMajor_bounds _ b1
+  omega
+
+/-- Non-vacuity on `ARRAY[0..1, 0..3]` and `ARRAY[-1..1, 2..3]`: `m[0,2]` is element 2, `m[2,0]`
+faults on its FIRST dimension, `m[1,3]` of the second array is its last element (5). -/
+example :
+    StArray.arrayOffset [(0, 1), (0, 3)] [0, 2] = .ok 2 ∧
+    StArray.arrayOffset [(0, 1), (0, 3)] [2, 0] = .error (.outOfBounds 2 0 1) ∧
+    StArray.arrayOffset [(-1, 1), (2, 3)] [1, 3] = .ok 5 ∧
+    StArray.arrayOffset [(0, 1), (0, 3)] [1] = .error .typeMismatch := ⟨rfl, rfl, rfl, rfl⟩
 
 end TrustVerif.StCore
